@@ -118,17 +118,14 @@ def judge (h : List (Nat × POp)) (o : Obs) : Option String :=
     | some f => if o.displayed == f then none else some "forced-display"
     | none => if o.displayed == o.state then none else some "forced-display"
 
-/-- Root-cause tags of the two input classes on which the current code departs from the statement (used to key the
-    known findings; evaluated on the history *before* `op`). -/
+/-- Root-cause tag of the input class on which the current code departs from the statement (used to key the known
+    finding; evaluated on the history *before* `op`).  The second class (`lose-while-only-stopping`) has been repaired: a
+    departure on a loss is reported as a plain violation. -/
 def causeTag (h : List (Nat × POp)) : POp → Option String
   | .remove j =>
     match (view j h).last with
     | some (s, _) => if s.isStopped then none else some "remove-entry-not-stopped"
     | none => none
-  | .lose j =>
-    let listed := listedSet h
-    if (view j h).listed && listed.all (fun i => ((view i h).last.map (·.1)) == some .stopping)
-    then some "lose-while-only-stopping" else none
   | _ => none
 
 end Supv.Spec.C11
